@@ -6,7 +6,7 @@ from framework import Result
 from props import _util
 
 ID = 'C04'
-LEAN_TARGETS = ['TexSoupProofs.Properties.C04']
+LEAN_TARGETS = ['TexSoupProofs.Properties.C04', 'TexSoupProofs.Properties.C03C04Parsed']
 THEOREMS = ['TexSoup.C04.' + n for n in (
     'contents_eq', 'all_eq', 'children_eq', 'iter_eq', 'getitem_eq', 'contents_map_snd', 'contents_steps',
     'descendants_unfold', 'closure_unfold', 'descendants_closure', 'descendants_closure_root',
@@ -14,7 +14,8 @@ THEOREMS = ['TexSoup.C04.' + n for n in (
     'parent_is_source', 'descendant_has_parent', 'parent_chain_reaches_root', 'text_in_document_order',
     'text_in_document_order_root', 'leaves_in_ser_order', 'leaves_in_ser_order_root', 'text_unfold',
     'text_eq_closure_text', 'root_all_concat', 'descendants_root', 'parent_is_source_root', 'root_contents',
-    'root_descendants')]
+    'root_descendants', 'contents_map_snd_parsed', 'contents_map_snd_root_parsed',
+    'desc_map_snd_parsed', 'desc_map_snd_root_parsed')] + ['TexSoup.parse_flatArgs', 'TexSoup.parse_flatArgs_node']
 PARTIAL = []
 TRUSTED = ['hand-written model of the views (lean/TexSoupModel/Nav.lean, NavPath.lean) and of the reader, tied to the '
            'code by the correspondence run only',
